@@ -22,6 +22,22 @@ def impl_chunks(params, mn, mx, pieces, guard):
         A.GUARD = None
 
 
+def impl_chunks_reused_buffer(params, mn, mx, pieces):
+    """the same stream handed over by a producer that REUSES one buffer (the readinto pattern): every piece is a memoryview of a
+    bytearray the producer overwrites as soon as it is resumed.  What a piece holds at hand-over time is what counts."""
+    from replicat.utils.adapters import gclmulchunker
+    size = max([len(p) for p in pieces] + [1])
+    buf = bytearray(size)
+
+    def producer():
+        for p in pieces:
+            buf[:len(p)] = p
+            yield memoryview(buf)[:len(p)]
+            buf[:] = b'\xEE' * size          # resumed: the buffer is refilled (here: scribbled over) before the next hand-over
+    ch = gclmulchunker(min_length=mn, max_length=mx)
+    return [bytes(c) for c in ch(producer(), params=params)]
+
+
 def align4(n):
     return (n + 3) & -4
 
@@ -88,6 +104,15 @@ def reuse_probe(case):
     list(ch3(iter(pieces), params=key))
     if [bytes(c) for c in ch3(iter(pieces2), params=key2)] != fresh2:
         return 'an adapter object that has chunked under one key cuts a later stream under another key differently from a fresh adapter'
+    # ... nor by another chunker that is ALIVE at the same time (another adapter object, another key), started in the middle of this run
+    solo = [bytes(c) for c in gclmulchunker(min_length=mn, max_length=mx)(iter(pieces), params=key)]
+    a = gclmulchunker(min_length=mn, max_length=mx)(iter(pieces), params=key)
+    first = next(a, None)
+    other = [bytes(c) for c in gclmulchunker(min_length=mn, max_length=mx)(iter(pieces2), params=key2)]
+    rest = [bytes(c) for c in a]
+    mine = ([bytes(first)] if first is not None else []) + rest
+    if mine != solo or other != fresh2:
+        return 'a run is cut differently when another chunker (another adapter object, another key) is created and used while it is in progress'
     return None
 
 
@@ -321,6 +346,16 @@ def check_cases(cases, rep: Report, with_model=True):
                                    f'(min {mn}, max {mx}, {total} bytes): guard 0x00 -> {[len(c) for c in runs["guard00"]]}, '
                                    f'guard 0xff -> {[len(c) for c in runs["guardff"]]}',
                                    'signature': dict(sig, kind='junk'), 'replay': case})
+        if idx % 3 == 0:
+            try:
+                reused = impl_chunks_reused_buffer(key, mn, mx, pieces)
+            except Exception as e:
+                reused = f'{type(e).__name__}: {str(e)[:80]}'
+            if reused != runs['inplace']:
+                rep.violations.append({'what': f'the same stream handed over through a reused buffer (memoryviews of one bytearray the producer overwrites when resumed) '
+                                               f'is cut differently (min {mn}, max {mx}): ' + (reused if isinstance(reused, str) else
+                                               f'{[len(c) for c in reused][:12]} / lossless={b"".join(reused) == b"".join(pieces)} vs {[len(c) for c in runs["inplace"]][:12]}'),
+                                       'signature': dict(sig, kind='reused_buffer'), 'replay': case})
         if idx % 4 == 0:
             msg = reuse_probe(case)
             if msg:
